@@ -200,6 +200,13 @@ BLOCKS = {
     'captionname': ('pkgtable', 'R', '\\begin{figure}cf%(n)s\\caption{Cn %(n)s}\\end{figure} \\figurename{} \\tablename{} \\contentsname\n'),
     'input_file': ('environment', 'R', 'Inc: \\input{inc} and \\input{sub/inc2} done%(n)s.\n'),
     'input_missing': ('environment', 'W', 'Try \\InputIfFileExists{nosuchfile%(n)s}{yes}{no} \\IfFileExists{inc.tex}{have}{havenot}.\n'),
+    # the same user-chosen label ids in different documents, on objects that live inside different output files
+    'eq_fixed': ('crossref', 'W', '\\begin{equation}\\label{eq:main} m_%(n)s \\end{equation}\n'),
+    'fig_fixed': ('crossref', 'W', '\\begin{figure}fx%(n)s\\caption{Main %(n)s}\\label{fig:main}\\end{figure}\n'),
+    'thm_fixed': ('crossref', 'W', '\\newtheorem{fthm}{FT}\\begin{fthm}\\label{thm:main} ft%(n)s\\end{fthm}\n'),
+    'ref_fixed': ('crossref', 'R', 'See (\\ref{eq:main}), \\ref{fig:main}, \\pageref{thm:main} and \\ref{thm:main} r%(n)s.\n'),
+    'section_break': ('crossref', 'N', '\\section{Break %(n)s} Text after break %(n)s.\n'),
+    'subsection_break': ('crossref', 'N', '\\subsection{Subbreak %(n)s} Text after subbreak %(n)s.\n'),
     'openout': ('switch', 'W', '\\openout\\myout=file%(n)s.aux \n'),
     'skip_dimen': ('switch', 'N', 'A\\vskip 3pt B\\hskip 2pt C%(n)s.\n'),
     'skip_glue': ('switch', 'N', 'A\\vspace{3pt plus 1pt} B\\hspace{2pt} C%(n)s.\n'),
@@ -327,6 +334,21 @@ def generate(seed, tier):
             job['blocks'] = blocks + [r.choice(OPENERS)]
             job['cut'] = r.choice([999, 999, 998])
         ops.append(job)
+    if r.random() < 0.35 and len(ops) >= 2:
+        # paired mode: the last job and one earlier job are built around ONE state family - the earlier one writes it,
+        # the last one both writes its own and reads it, with section breaks moving things into other output files
+        fam = r.choice(fams)
+        W = [b for b in BLOCK_IDS if BLOCKS[b][0] == fam and BLOCKS[b][1] == 'W']
+        Rd = [b for b in BLOCK_IDS if BLOCKS[b][0] == fam and BLOCKS[b][1] in ('R', 'N')]
+        if W and Rd:
+            a = ops[r.randrange(len(ops) - 1)]
+            a['blocks'] = [r.choice(W) for _ in range(r.randint(1, 3))] + a['blocks'][:2]
+            a['cut'] = None
+            b = ops[-1]
+            mine = [r.choice(['section_break', 'subsection_break']) for _ in range(r.randint(0, 3))]
+            mine += [r.choice(W) for _ in range(r.randint(0, 2))] + [r.choice(Rd) for _ in range(r.randint(1, 3))]
+            r.shuffle(mine)
+            b['blocks'] = mine
     if r.random() < 0.12 and len(ops) >= 2:       # the "same input twice" case
         ops[-1] = dict(ops[-2], dt=r.choice([1, 86400]))
         ops[-1]['cut'] = None if ops[-1].get('cut') else ops[-1].get('cut')
@@ -598,7 +620,26 @@ def prepare():
 
 def enumerate_cases(base_seed, tier):
     """Every ordered pair (A;B) of the repository's own test documents, B judged against B alone."""
+    import random
     out = []
+
+    def gjob(blocks, cls='article'):
+        return {'op': 'JOB', 'cls': cls, 'packages': [], 'blocks': blocks, 'cut': None, 'renderer': 'HTML5', 'split': 2,
+                'theme': 'default', 'dt': 60, 'extra': []}
+    # targeted writer/reader pairs, family by family: A writes the state, B reads it - once plainly, once after
+    # section breaks and with a writer of its own (so that the same thing lives in another output file of B)
+    cap = 12 if tier == 'quick' else 60
+    fams = sorted(set(v[0] for v in BLOCKS.values()))
+    for fam in fams:
+        W = [b for b in BLOCK_IDS if BLOCKS[b][0] == fam and BLOCKS[b][1] == 'W']
+        Rd = [b for b in BLOCK_IDS if BLOCKS[b][0] == fam and BLOCKS[b][1] == 'R']
+        pairs = [(w, x) for w in W for x in Rd]
+        random.Random(core.h64('C17-pairs', base_seed, fam)).shuffle(pairs)
+        for k, (w, x) in enumerate(pairs[:cap]):
+            for variant, bblocks in enumerate(([x], ['section_break', 'textbf', 'section_break', w, x])):
+                out.append({'property': PID, 'seed': core.h64('C17-pair', fam, w, x, variant),
+                            'swarm': {'scrub': False, 'base': 'minimal', 'exec_ref': False, 'hashseed': 1},
+                            'ops': [gjob([w]), gjob(bblocks)]})
     for ia, a in enumerate(CORPUS):
         for ib, b in enumerate(CORPUS):
             def job(rel):
